@@ -21,7 +21,12 @@ LEVEL_TEXT = ("Coq theorems (abstract field with conjugation, ordered where an o
 TRUSTED = ["Coq 8.16.1 kernel + vm_compute",
            "hand-written model coq/Model/ArmaEst.v (tie = correspondence run + AST extraction of the class pipelines); ma (Model/MaEst.v) is in addition under "
            "the loop-IR tie: its IR program - the two aryule fits with CORRELATION and LEVINSON embedded - is regenerated from arma.py / yulewalker.py / "
-           "correlation.py / levinson.py on every run and evaluated exactly (QcC, zero tolerance) against Model.MaEst.ma_est on sampled inputs, every error branch included",
+           "correlation.py / levinson.py on every run and evaluated exactly (QcC, zero tolerance) against Model.MaEst.ma_est on sampled inputs, every error branch included; "
+           "T10: arma_estimate is under the loop-IR tie too: its IR program (CORRELATION, the Y loop, Marple's recursion arcovar_marple for P <= 4, the residual filter, ma "
+           "embedded; the scipy-lstsq solver arcovar for P > 4 an ORACLE call = two hidden parameters) is regenerated from arma.py / covar.py / ... on every run and compared "
+           "exactly (QcC, zero tolerance: outcome class, every coefficient, rho, dtype tags) with Model.ArmaEst.arma_estimate instantiated with lsm := the hand model of "
+           "arcovar_marple (Model/CovarMarple.v) and lsq := the value in the oracle slot (arbitrary low-bit arrays: the claim is for all oracle values), on sampled inputs "
+           "inside the documented domain (Q<=lag, lag+2P-Q<=N, 2Q<N-P, 2P<=lag<N; real with both dtype tags and complex) and on every error branch; no theorem `run = model` for it",
            TRUSTED_LINE,
            "arcovar_marple / arcovar (scipy lstsq) enter the model as oracles that satisfy the normal equations of the covariance "
            "method; the correspondence run instantiates them with exact elimination on the normal equations and checks, inside Coq "
@@ -542,7 +547,9 @@ def run(ctx):
     from props import _estimators as E_
     E_.class_route_stream(ctx, ['parma', 'pma', 'pyule', 'pburg', 'pcovar', 'pmodcovar'], 'routes')
     # the IR program of ma, regenerated from arma.py with aryule / CORRELATION / LEVINSON embedded, vs Model.MaEst.ma_est: exact, zero tolerance
-    loopir_tie(ctx, ['ma'])
+    # T10: arma_estimate as well - CORRELATION, the Y loop, arcovar_marple (P <= 4), the residual filter and ma embedded; arcovar (scipy lstsq, P > 4) is an
+    # ORACLE call (hidden parameter) - vs Model.ArmaEst.arma_estimate with lsm := the hand model of arcovar_marple, lsq := the oracle value: exact
+    loopir_tie(ctx, ['ma', 'arma_estimate'])
     check_pipelines(ctx)
     lap('theorems+pipelines')
 
